@@ -925,6 +925,23 @@ class History:
 
     op_sp_set = op_sp_del = op_sp_nested_set = op_sp_list_append = op_sp_list_set = _rekey
 
+    def op_sp_assign_invalid(self, op):
+        """A state point assignment that signac refuses (a key with a dot, a non-string key, a non-mapping):
+        an exception, and nothing changes -- not on disk, not in the handle."""
+        h = self.usable(op)
+        if h is None:
+            return
+        bad = [{"a.b": 1}, {"k": {"x.y": 2}}, [1, 2], {1: 2}][int(op.get("how", 0)) % 4]
+        try:
+            if op.get("via") == "sp":
+                h["job"].sp = bad
+            else:
+                h["job"].statepoint = bad
+        except Exception:
+            self.cl.add("refused_invalid_statepoint")
+            return
+        self.mm("invalid_sp_accepted", f"job.statepoint = {bad!r} was accepted (handle for {h['sp']!r})")
+
     def op_sp_nested_set2(self, op):
         """Two edits through ONE reference to the nested mapping, taken before the first of them
         (`model = job.sp.model; model.x = 1; model.y = 2`): the first re-keys the job, the second must count too."""
